@@ -197,7 +197,14 @@ class MemListener:
     def __repr__(self):
         return "<MemListener %s:%s>" % self.addr
 
+    def _sync_ready(self):
+        # synchronous world: a connection whose client has not written (or gone away) yet is not offered to the daemon - its handshake
+        # would find nothing to read, where a real server simply waits for the first bytes
+        return [s for s in self.queue if s.buf or s.eof or s.reset]
+
     def readable(self):
+        if S.Scheduler.current is None and self.net.sync_daemons:
+            return bool(self._sync_ready()) or self.closed
         return bool(self.queue) or self.closed
 
     def accept(self):
@@ -216,7 +223,11 @@ class MemListener:
                 if self.closed:
                     raise OSError(errno.EBADF, "Bad file descriptor (mem listener)")
                 raise socket.timeout("accept timed out (mem)")
-        sock = self.queue.popleft()
+        if S.Scheduler.current is None and self.net.sync_daemons and self._sync_ready():
+            sock = self._sync_ready()[0]
+            self.queue.remove(sock)
+        else:
+            sock = self.queue.popleft()
         if sock.kfd is None and not sock.closed:
             sock.kfd = self.net.alloc_kfd()
         return sock, sock.peeraddr
